@@ -248,54 +248,116 @@ def reload_search(depth):
   return n, bad
 
 
-def wiring_check(_):
+WIRING_NAMES = ('keep.a', 'keep.drop', 'other.a', 'other.drop')
+WIRING_CONTENT = {'w1': '^keep\\.\n', 'w2': '^other\\.\n', 'b1': 'drop$\n', 'b2': 'a$\n'}
+
+
+def wiring_expect(wl, bl, name):
+  import re
+  if bl is not None and any(re.search(l, name) for l in bl.split()):
+    return False
+  if wl is not None and wl.split() and not any(re.search(l, name) for l in wl.split()):
+    return False
+  return True
+
+
+def wiring_scenarios():
+  """(initial whitelist content or None, initial blacklist content or None, later file operations)."""
+  out = []
+  for w0 in (None, 'w1'):
+    for b0 in (None, 'b1'):
+      for ops in ([], [('w', 'w2')], [('b', 'b2')], [('w', None)], [('b', None)], [('w', 'w2'), ('b', 'b2')],
+                  [('w', 'w1'), ('b', 'b1')]):
+        out.append((w0, b0, ops))
+  return out
+
+
+def wiring_check(_, only=None):
   """The daemon's own wiring (service.createBaseService with USE_WHITELIST): the whitelist file must feed the
-  whitelist and the blacklist file the blacklist."""
+  whitelist and the blacklist file the blacklist - also when a file does not exist yet at start-up and appears
+  later, is rewritten, or is removed (the 10 s reload timer runs on a virtual clock)."""
   settings = env.boot()
-  env.reset_state()
   from carbon import service
   from carbon.regexlist import WhiteList, BlackList
   from twisted.internet.task import Clock
-  d = os.path.join(env.scratch(), 'wiring-%d' % os.getpid())
-  os.makedirs(d, exist_ok=True)
-  wp, bp = os.path.join(d, 'whitelist.conf'), os.path.join(d, 'blacklist.conf')
-  open(wp, 'w').write('^keep\\.\n')
-  open(bp, 'w').write('drop$\n')
   bad = []
-  for lst in (WhiteList, BlackList):
-    if lst.read_task.running:
-      lst.read_task.stop()
-    lst.read_task.clock = Clock()
-    lst.rules_last_read = 0.0
-    lst.regex_list = []
-  settings['USE_WHITELIST'] = True
-  settings['whitelist'], settings['blacklist'] = wp, bp
-  try:
-    service.createBaseService(None, settings)
-    rig = wire.Rig('line')
-    from carbon import events
-    events.metricReceived.addHandler(rig._rec)
-    for name, want in (('keep.a', True), ('keep.drop', False), ('other.a', False), ('other.drop', False)):
-      del rig.delivered[:]
-      rig.feed(wire.line(name, 1000, 1.0))
-      got = bool(rig.delivered)
-      if got != want:
-        bad.append(('wiring', 'daemon wired with whitelist "^keep\\." and blacklist "drop$": %r %s' % (
-          name, 'was delivered' if got else 'was filtered'), {'wiring': name}))
-  finally:
-    settings['USE_WHITELIST'] = False
+  n = 0
+  for si, (w0, b0, ops) in enumerate(wiring_scenarios()):
+    if only is not None and si != only:
+      continue
+    env.reset_state()
+    d = os.path.join(env.scratch(), 'wiring-%d-%d' % (os.getpid(), si))
+    os.makedirs(d, exist_ok=True)
+    paths = {'w': os.path.join(d, 'whitelist.conf'), 'b': os.path.join(d, 'blacklist.conf')}
+    cur = {'w': w0, 'b': b0}
+    mt = 1000.0
+    for k in ('w', 'b'):
+      if cur[k] is not None:
+        open(paths[k], 'w').write(WIRING_CONTENT[cur[k]])
+        os.utime(paths[k], (mt, mt))
+    clocks = []
     for lst in (WhiteList, BlackList):
       if lst.read_task.running:
         lst.read_task.stop()
-      lst.regex_list = []
+      lst.read_task.clock = Clock()
+      clocks.append(lst.read_task.clock)
       lst.rules_last_read = 0.0
-  return bad
+      lst.regex_list = []
+      lst.list_file = None
+    settings['USE_WHITELIST'] = True
+    settings['whitelist'], settings['blacklist'] = paths['w'], paths['b']
+    try:
+      service.createBaseService(None, settings)
+      rig = wire.Rig('line')
+      from carbon import events
+      events.metricReceived.addHandler(rig._rec)
+
+      def check(stage):
+        for name in WIRING_NAMES:
+          want = wiring_expect(WIRING_CONTENT.get(cur['w']), WIRING_CONTENT.get(cur['b']), name)
+          del rig.delivered[:]
+          rig.feed(wire.line(name, 1000, 1.0))
+          got = bool(rig.delivered)
+          if got != want and len(bad) < 3:
+            bad.append(('wiring', 'daemon started by createBaseService with whitelist file %s and blacklist file %s; %s: now the '
+                        'whitelist file holds %r and the blacklist file %r, but %r %s' % (
+                          'absent' if w0 is None else repr(WIRING_CONTENT[w0]), 'absent' if b0 is None else repr(WIRING_CONTENT[b0]),
+                          stage, WIRING_CONTENT.get(cur['w']), WIRING_CONTENT.get(cur['b']), name,
+                          'was delivered' if got else 'was filtered'), {'wiring': name, 'scenario': si}))
+      check('right after start-up')
+      n += len(WIRING_NAMES)
+      for k, content in ops:
+        mt += 7.5
+        if content is None:
+          if os.path.exists(paths[k]):
+            os.unlink(paths[k])
+        else:
+          open(paths[k], 'w').write(WIRING_CONTENT[content])
+          os.utime(paths[k], (mt, mt))
+        cur[k] = content
+      if ops:
+        for c in clocks:
+          c.advance(10.5)
+        check('after %r and one reload period' % (ops,))
+        n += len(WIRING_NAMES)
+    except Exception as e:   # noqa
+      bad.append(('wiring', 'scenario %r raised %r' % ((w0, b0, ops), e), {'wiring': 'exception', 'scenario': si}))
+    finally:
+      settings['USE_WHITELIST'] = False
+      for lst in (WhiteList, BlackList):
+        if lst.read_task.running:
+          lst.read_task.stop()
+        lst.regex_list = []
+        lst.rules_last_read = 0.0
+  return bad, n
 
 
 def run(ctx):
   env.boot()
-  for key, what, rep in core.pmap(wiring_check, [0], fresh=True)[0]:
+  wbad, wn = core.pmap(wiring_check, [0], fresh=True)[0]
+  for key, what, rep in wbad:
     ctx.violation(key, what, rep)
+  ctx.add(wiring_scenarios=len(wiring_scenarios()), wiring_evaluations=wn)
   cs = core.seeded_order(cases(ctx), ctx.seed)
   nsh = 64
   res = core.pmap(shard, [cs[i::nsh] for i in range(nsh)], chunksize=1)
@@ -321,7 +383,7 @@ def replay(path):
   body = json.load(open(path))
   rep = body['replay']
   if 'wiring' in rep:
-    bad = wiring_check(0)
+    bad, _ = wiring_check(0, only=rep.get('scenario'))
     print('oracle:', bad[0][1] if bad else 'holds')
     return 1 if bad else 0
   if 'history' in rep:
